@@ -1,6 +1,10 @@
 (** C04 - A broadcast reaches exactly the sockets its rooms and exclusions select, once.
-    This file holds statements only; every proof is `exact <lemma>`. *)
-From SioV Require Import Adapter.Rooms Adapter.RoomsProofs.
+    This file holds statements only; every proof is `exact <lemma>`.
+    Models: Adapter/Rooms.v (the two indexes, AddAll/Delete/DeleteAll), Adapter/Broadcast.v (apply,
+    BroadcastOperator, namespace-level operations); specification: Adapter/BroadcastSpec.v. *)
+From SioV Require Import Adapter.Rooms Adapter.RoomsProofs Adapter.Broadcast Adapter.BroadcastSpec
+  Adapter.BroadcastProofs Adapter.BroadcastNspProofs Adapter.BroadcastCheck Adapter.Broadcast3x3
+  Adapter.BroadcastConc Adapter.BroadcastConcProofs.
 
 (** After ANY history of AddAll / Delete / DeleteAll (any sockets, any rooms, any length) the two
     indexes of the adapter are mutually inverse and no room is left with an empty socket set. *)
@@ -20,3 +24,133 @@ Proof.
     let '(conj a (conj b _)) := arun_net_effect h s r in
     conj (iff_trans a (mrun_member_after h s r)) (iff_trans b (mrun_member_after h s r))).
 Qed.
+
+(** Same at namespace level, for every history of connect / Join / Leave / Disconnect /
+    SocketsJoin / SocketsLeave / DisconnectSockets (the last three going through apply with any
+    (T,E), issued by the namespace or through a socket): both indexes, the registered, connected and
+    closed sockets are those of the abstract membership relation folded over the history. *)
+Theorem C04_membership_is_net_effect_nsp : forall (h : list nop) s r,
+  (s ∈ room_sids (n_ad (nrun h)) r <-> (s, r) ∈ an_pairs (anrun h)) /\
+  (r ∈ sid_rooms (n_ad (nrun h)) s <-> (s, r) ∈ an_pairs (anrun h)) /\
+  (s ∈ dom (a_sids (n_ad (nrun h))) <-> s ∈ an_present (anrun h)) /\
+  (s ∈ n_store (nrun h) <-> s ∈ an_store (anrun h)) /\
+  (s ∈ n_closed (nrun h) <-> s ∈ an_closed (anrun h)).
+Proof. exact nrun_net_effect. Qed.
+
+(** In every adapter state with inverse indexes, for every socket store, every T and E: apply
+    invokes its callback on exactly the selected sockets - known to the store, registered, in some
+    room of T (any registered socket when T is empty), in no room of E - and on each of them once,
+    also when it is in several rooms of T. *)
+Theorem C04_broadcast_exact : forall (known : positive -> bool) (T E : gset positive) (st : adapter),
+  indexes_inverse st ->
+  NoDup (apply_targets known T E st) /\
+  forall s, s ∈ apply_targets known T E st <->
+    known s = true /\ s ∈ dom (a_sids st) /\
+    (T = ∅ \/ exists r, r ∈ T /\ s ∈ room_sids st r) /\
+    (forall r, r ∈ E -> s ∉ room_sids st r).
+Proof. exact apply_targets_exact. Qed.
+
+(** ... hence after every namespace history a broadcast (issued by the namespace, or through
+    socket `from` whose own-id room is then added to the exclusions) reaches exactly the sockets
+    the abstract relation selects, once each. *)
+Theorem C04_broadcast_exact_after_history : forall (h : list nop) from T E,
+  NoDup (op_targets (nrun h) from T E) /\
+  forall s, s ∈ op_targets (nrun h) from T E <-> s ∈ an_op_selected (anrun h) from T E.
+Proof. exact nrun_broadcast_exact. Qed.
+
+(** A broadcast issued through a socket never reaches that socket - as long as the socket is
+    still in the room named by its own id (the side condition excludes exactly the finding class
+    `sender-left-own-room`). *)
+Theorem C04_sender_excluded_partial : forall (h : list nop) s T E,
+  s ∈ room_sids (n_ad (nrun h)) s -> s ∉ op_targets (nrun h) (Some s) T E.
+Proof. exact nrun_sender_excluded_partial. Qed.
+
+(** The unconditional statement is false for the code as it is: the sender is excluded by room,
+    not by id.  Witness (replayed on the real server by the check): two sockets connect, socket 1
+    leaves the room named by its own id, then broadcasts. *)
+Theorem C04_sender_excluded_refuted : exists (h : list nop) s T E,
+  s ∈ n_store (nrun h) /\ s ∈ op_targets (nrun h) (Some s) T E.
+Proof. exact sender_excluded_refuted. Qed.
+
+(** The side condition is satisfiable: a connected socket that never left is in its own room. *)
+Example C04_sender_side_condition_example :
+  let h := [NConnect 1; NConnect 2; NJoin 1 [5]]%positive in
+  1%positive ∈ room_sids (n_ad (nrun h)) 1%positive /\ op_targets (nrun h) (Some 1%positive) [] [] = [2%positive].
+Proof. vm_compute. split; [set_solver|reflexivity]. Qed.
+
+(** A disconnected socket belongs to no room, is not registered, not known to the store, and no
+    broadcast reaches it - whatever the history does afterwards (joins included). *)
+Theorem C04_disconnected_in_no_room : forall (h : list nop) s,
+  s ∈ n_closed (nrun h) ->
+  s ∉ dom (a_sids (n_ad (nrun h))) /\ sid_rooms (n_ad (nrun h)) s = ∅ /\
+  (forall r, s ∉ room_sids (n_ad (nrun h)) r) /\ s ∉ n_store (nrun h) /\
+  (forall from T E, s ∉ op_targets (nrun h) from T E).
+Proof. exact nrun_disconnected_in_no_room. Qed.
+
+(** BroadcastOperator values are immutable: for every program of New / To / In / Except
+    derivations over shared parents, run on the heap model of the Go struct (two pointers to
+    mutable sets, Clone on derivation), every operator ever created still hands the adapter the
+    (Rooms, Except) of its own derivation after all later derivations. *)
+Theorem C04_operator_immutable : forall prog : list binstr,
+  let '(h, ops) := foldl bexec ([], []) prog in
+  map (bop_opts h) ops = foldl bdenote [] prog.
+Proof. exact operator_immutable. Qed.
+
+(** Finite cross-check by kernel evaluation: all 512 membership matrices of 3 sockets x 3 rooms,
+    all 8 store subsets, all 64 (T,E): the model delivers to socket i exactly
+    [table_expect] (0 or 1) times, read directly off the matrix. *)
+Theorem C04_all_3x3 : forall m kb te : N,
+  (m < 512)%N -> (kb < 8)%N -> (te < 64)%N -> table_ok m kb te = true.
+Proof. exact all_3x3. Qed.
+
+(** * Interval semantics: membership changes concurrent with a broadcast.
+    apply() releases the adapter mutex around every callback; the transition system of
+    Adapter/BroadcastConc.v interleaves its loop with arbitrary AddAll/Delete/DeleteAll calls and
+    socket-store changes of other goroutines, under the stated assumption on Go map iteration.
+    The theorems quantify over ALL event sequences [evs] (all interleavings, all concurrent
+    operations); [always P c evs] says P holds in every state the run goes through. *)
+
+(** A socket that is in one room of T during the whole broadcast, known to the store during the
+    whole broadcast and in no room of E when the broadcast starts, receives it exactly once. *)
+Theorem C04_interval_member_receives_once : forall ad store (T E : gset positive) evs c' r s,
+  r ∈ T -> s ∉ except_sids E ad ->
+  always (fun c => s ∈ c_store c /\ s ∈ room_sids (c_ad c) r) (cinit ad store T E) evs ->
+  crun (cinit ad store T E) evs = Some c' -> c_fin c' = true ->
+  once s (c_out c').
+Proof. exact conc_must_rooms. Qed.
+
+(** The same for a broadcast to everybody (T empty): registered and known throughout. *)
+Theorem C04_interval_member_receives_once_all : forall ad store (E : gset positive) evs c' s,
+  s ∉ except_sids E ad ->
+  always (fun c => s ∈ c_store c /\ s ∈ dom (a_sids (c_ad c))) (cinit ad store ∅ E) evs ->
+  crun (cinit ad store ∅ E) evs = Some c' -> c_fin c' = true ->
+  once s (c_out c').
+Proof. exact conc_must_all. Qed.
+
+(** A socket that is in no room of T at any moment of the broadcast never receives it ... *)
+Theorem C04_interval_nonmember_never : forall ad store (T E : gset positive) evs c' s,
+  T <> ∅ ->
+  always (fun c => forall r, r ∈ T -> s ∉ room_sids (c_ad c) r) (cinit ad store T E) evs ->
+  crun (cinit ad store T E) evs = Some c' -> s ∉ c_out c'.
+Proof. exact conc_never_nonmember_rooms. Qed.
+
+Theorem C04_interval_unregistered_never_all : forall ad store (E : gset positive) evs c' s,
+  always (fun c => s ∉ dom (a_sids (c_ad c))) (cinit ad store ∅ E) evs ->
+  crun (cinit ad store ∅ E) evs = Some c' -> s ∉ c_out c'.
+Proof. exact conc_never_nonmember_all. Qed.
+
+(** ... nor does one that is in a room of E when the broadcast starts, nor one the store does
+    not know at any moment. *)
+Theorem C04_interval_excluded_never : forall ad store (T E : gset positive) evs c' s,
+  s ∈ except_sids E ad -> crun (cinit ad store T E) evs = Some c' -> s ∉ c_out c'.
+Proof. exact conc_never_excluded. Qed.
+
+Theorem C04_interval_unknown_never : forall ad store (T E : gset positive) evs c' s,
+  always (fun c => s ∉ c_store c) (cinit ad store T E) evs ->
+  crun (cinit ad store T E) evs = Some c' -> s ∉ c_out c'.
+Proof. exact conc_never_unknown. Qed.
+
+(** With target rooms, nobody receives a broadcast twice, whatever happens concurrently. *)
+Theorem C04_interval_at_most_once : forall ad store (T E : gset positive) evs c',
+  T <> ∅ -> crun (cinit ad store T E) evs = Some c' -> NoDup (c_out c').
+Proof. exact conc_rooms_at_most_once. Qed.
